@@ -6,6 +6,8 @@ import mechs
 
 LEAN_MODULE = 'PGM.Properties.C20'
 NEEDS_GENERATED = True
+LEAN_EXTRA = ['PGM.Properties.C05S']
+TRANSLATORS = ('py2lean', 'py2flow', 'py2sel')   # py2sel: exponential_mechanism of mechanism.py / mst.py / adaptive_grid.py and the selection of mwem+pgm.py translated whole -> Generated/SelectG.lean (closed forms gen_mech_em_*, gen_mst_em, gen_ada_em, gen_mwem_worst_approximated in C05S)
 TRUSTED = ['Lean 4.33 kernel', 'axioms: propext, Classical.choice, Quot.sound',
            'tools/py2lean.py slices (coefficient / scale expressions), validated per run by running the generated Float expressions against the probability vectors and scales the real primitives hand to their samplers',
            'numpy samplers (choice / normal / laplace) draw from the distribution with the parameters they are given: trusted, not modelled',
